@@ -190,6 +190,11 @@ def main(tier):
     recs0 = htmlfam.tie_html(c, 600 if tier == "quick" else 6000, 150 if tier == "quick" else 1500)
     if recs0 is None:
         c.finish(rule="build failed")
+    # the parser half: parse_document_model (Model/Parse.v) is tied end to end to the compiled parse_document here
+    # (final trees with positions, nothing masked), so a change of the parser that the canonical documents of this run do
+    # not meet is still reported (as a broken tie)
+    from checks import layerc
+    layerc.whole(c, tier, 0.2 if tier == "quick" else 0.1, proofs=False)
 
     # ------------------------------------------------------------------ documents
     docs = []
